@@ -76,6 +76,11 @@ Proof. reflexivity. Qed.
 Theorem empty_map_not_handed_out : gen_empty_map_private = true.
 Proof. reflexivity. Qed.
 
+(* F33: a float32 field read from a string has its range checked on the number as written, like a
+   json number (one rounding for value and bounds, Rounding.v) *)
+Theorem float32_range_checked_on_the_text : gen_f32_range_on_text = true.
+Proof. reflexivity. Qed.
+
 (* httpx.Parse: path, form, headers, body — the order of the passes of a call in Check.v — then the validator *)
 Theorem parse_order_is_path_form_header_body :
   gen_parse_order = ["ParsePath"; "ParseForm"; "ParseHeaders"; "ParseJsonBody"] /\ gen_validator_after_passes = true.
